@@ -16,7 +16,8 @@ pub mod spec {
 
     pub fn b4(p: u64, m: u64, k: usize) -> B4 {
         if k >= 64 { return Zero; }
-        match ((p >> k) & 1 == 1, (m >> k) & 1 == 1) {
+        let sel = 1u64 << k;                       // one-hot select (cheaper for the SAT back end than a barrel shifter)
+        match (p & sel != 0, m & sel != 0) {
             (false, false) => Zero,
             (true, false) => One,
             (false, true) => X,
@@ -176,9 +177,10 @@ pub mod harness {
         assert!(r.mask_xz == 0);
         let full = rmask(w);
         match op {
-            Op::Add => assert!(r.payload == xp.wrapping_add(yp) & full),
-            Op::Sub => assert!(r.payload == xp.wrapping_sub(yp) & full),
-            Op::Mul => assert!(r.payload == xp.wrapping_mul(yp) & full),
+            Op::Add => { assert!(r.payload == xp.wrapping_add(yp) & full) }
+            Op::Sub => { assert!(r.payload == xp.wrapping_sub(yp) & full) }
+            // job opeval_uf: the multiplier is the same uninterpreted function in code and reference (rule E10)
+            Op::Mul => { assert!(r.payload == crate::uf::mul(xp, yp) & full) }
             _ => unreachable!(),
         }
     }
@@ -204,17 +206,48 @@ pub mod harness {
         }
         assert!(r.mask_xz == 0);
         let full = rmask(w);
+        // job opeval_uf: divider/remainder are the same uninterpreted functions in code and reference (rule E10);
+        // the overflow case MIN / -1 is spelled out: quotient wraps to MIN (== dividend), remainder 0
         let expect = if signed {
             let (a, b) = (sval(xp, w), sval(yp, w));
+            let ovf = a == i64::MIN && b == -1;
             match op {
-                Op::Div => a.wrapping_div(b) as u64 & full,
-                _ => a.wrapping_rem(b) as u64 & full,
+                Op::Div => (if ovf { a } else { crate::uf::sdiv(a, b) }) as u64 & full,
+                _ => (if ovf { 0 } else { crate::uf::srem(a, b) }) as u64 & full,
             }
         } else {
-            match op { Op::Div => xp / yp, _ => xp % yp }
+            match op { Op::Div => crate::uf::udiv(xp, yp) & full, _ => crate::uf::urem(xp, yp) & full }
         };
         assert!(r.payload == expect);
     }
+
+    // bounded stand-ins with the REAL machine operations against a mathematical reference (i128), context width <= 8
+    fn arith_small(op: Op) {
+        let (x, y, w, signed) = ctx_binary();
+        kani::assume(w <= 8);
+        let r = bin(op, &x, &y, w, signed);
+        let (xp, xm) = ext(&x, w, signed);
+        let (yp, ym) = ext(&y, w, signed);
+        if xm != 0 || ym != 0 || (yp == 0 && op != Op::Mul) {
+            assert!(all_x(&r, w));
+            return;
+        }
+        let (a, b) = if signed { (sval(xp, w) as i128, sval(yp, w) as i128) } else { (xp as i128, yp as i128) };
+        // truncation toward zero; remainder has the sign of the dividend (IEEE 1800 11.4.2)
+        let m = match op {
+            Op::Mul => a * b,
+            Op::Div => { let q = a.abs() / b.abs(); if (a < 0) != (b < 0) { -q } else { q } }
+            _ => { let q = a.abs() % b.abs(); if a < 0 { -q } else { q } }
+        };
+        assert!(r.mask_xz == 0 && r.width as usize == w);
+        assert!(r.payload == (m as u64) & rmask(w));
+    }
+    #[vp_proof]
+    pub fn small_mul() { arith_small(Op::Mul) }
+    #[vp_proof]
+    pub fn small_div() { arith_small(Op::Div) }
+    #[vp_proof]
+    pub fn small_rem() { arith_small(Op::Rem) }
     #[vp_proof]
     pub fn op_div() { divrem(Op::Div) }
     #[vp_proof]
